@@ -53,6 +53,42 @@ theorem args_order_preserved (fns : List Token.FnDef) (st : Imports.St) (args : 
     simpa [Errs.pfx] using h
   simpa using (this.2 he).2
 
+/-- **fields are assigned in sorted name order** — whatever the key order of the YAML mapping, and whether or not
+a value fails to resolve -/
+theorem fields_sorted_by_name (fns : List Token.FnDef) (st : Imports.St) (fields : AMap Val) :
+    (compileFields fns st fields).2.1.map (·.name) = (AMap.sorted fields).map (·.1) := by
+  unfold compileFields
+  rw [compileFields_fold]
+  simp
+
+/-- **calls keep their order, names and wither flags**: one compiled call per declared call, in declaration order -/
+theorem calls_order_preserved (fns : List Token.FnDef) (st : Imports.St) (calls : List Input.Call) :
+    (compileCalls fns st calls).2.1.map (fun c => (c.method, c.immutable)) = calls.map (fun c => (c.method, c.immutable)) := by
+  unfold compileCalls
+  rw [compileCalls_fold]
+  simp
+
+/-- … and, when no error is reported, every call receives exactly its declared arguments, in order -/
+theorem call_args_preserved (fns : List Token.FnDef) (st : Imports.St) (calls : List Input.Call)
+    (h : (compileCalls fns st calls).2.2.1 = []) :
+    (compileCalls fns st calls).2.1.map (fun c => c.args.map (·.raw)) = calls.map (·.args) := by
+  unfold compileCalls at *
+  simpa using (compileCalls_args fns calls (st, [], [], 0) h).2
+
+/-- a live service is compiled from exactly these parts: sorted fields, then arguments, then calls (the order in
+which import aliases are drawn), tags copied one for one -/
+theorem service_parts (name : String) (svc : Input.Service) (dm : Option Bool) (fns : List Token.FnDef) (st : Imports.St)
+    (h : svc.todo.getD false = false) :
+    let rf := compileFields fns st svc.fields
+    let ra := resolveArgs fns rf.1 svc.args
+    let rc := compileCalls fns ra.1 svc.calls
+    (compileService name svc dm fns st).1.fields = rf.2.1 ∧
+    (compileService name svc dm fns st).1.args = ra.2.1 ∧
+    (compileService name svc dm fns st).1.calls = rc.2.1 ∧
+    (compileService name svc dm fns st).1.tags.map (fun t => (t.name, t.priority)) = svc.tags.map (fun t => (t.name, t.priority)) := by
+  unfold compileService
+  simp [h]
+
 /-- scope keyword ↦ compiled scope is the identity on {shared, contextual, non_shared}; unset ↦ default -/
 theorem scope_mapping :
     scopeOut none = .default ∧ scopeOut (some .shared) = .shared ∧
